@@ -82,6 +82,12 @@ def _range_guards(fn, d):
                 lo.append(n)
             elif op in (">=", ">") and rv is None:
                 hi.append(n)
+                # `(unsigned)idx >= (unsigned)n`: a negative index converts to a value above every count, so the
+                # one comparison rejects both ends
+                pside = lf.c[0].strip() if l is lf.c[0].strip_casts() else lf.c[1].strip()
+                if pside.k == "CStyleCastExpr" and (pside.t or "").replace("const ", "").strip() in (
+                        "uint32_t", "unsigned int", "size_t", "uint64_t", "unsigned long", "uint16_t", "unsigned"):
+                    lo.append(n)
     return lo, hi
 
 
@@ -520,13 +526,10 @@ def run(ctx):
     from . import C17
     tr_ = P.fn("traverse_schema_recursive", FRD)
     C17._walk_table(ctx, tr_, P.enum("carquet_field_repetition"))
-    # footer validation (shared with C18.2) is decided there; here: footer_size bounds the malloc/fread
-    rf = P.fn("read_footer", FRD)
-    g = _guards(rf, lambda c: "footer_size" in src(c) and "file_size" in src(c))
-    m = rf.calls("malloc")
-    ctx.ob("R3.extent", "footer-size|%s:read_footer" % FRD, P.where(rf.body),
-           "footer_size is compared with the file size before it sizes the footer buffer",
-           bool(g) and bool(m) and rf.cfg.node_dominates(_first_cfg(rf, g[0]), m[0]))
+    # footer validation: the open-gate traces of C18.2 (shared): the parser is reached only for a validated envelope
+    # and no buffer is sized by an unvalidated footer length
+    from . import C18
+    C18.open_gates(ctx)
 
     # ---- termination of the level / index decoder's driving loops
     ctx.clause("C04.8 a refill step of the streaming RLE decoder that gives up records an error or has nothing owed (read loops terminate)")
